@@ -262,7 +262,7 @@ def generate(tier, rng):
     ]:
         for _ in range(3):
             cases.append({'kind': 'load', 'inp': _mk(rng, **force)})
-    n_pair, n_rand = {'quick': (6, 20), 'thorough': (32, 800), 'search': (10, 1500)}[tier]
+    n_pair, n_rand = {'quick': (6, 20), 'thorough': (40, 2000), 'search': (10, 1500)}[tier]
     # every pair of axis values at least n_pair times (random completion of the other axes)
     axes = AXES if tier == 'quick' else AXES + AXES_LIGHT
     if tier == 'quick':      # the fourth route is exercised by the corpus, the light axes and the random stream
